@@ -159,9 +159,6 @@ T3 = {
  'C07_2': ('C07', ['C07'], 'the balanced rejoin may decimate through a deferred result that yields None',
            'sources_balance joiner with outputs and a callable-returning process() yielding None + a delayed older frame of a slower worker: stale lower id becomes the receive minimum',
            'C07 quick: order in 43 runs'),
- 'C08_1': ('C08', ['C08'], 'C08 gives loop_exc=False to neighbours of the failing filter (this also exposed a genuine defect, repaired by 28ac49b)',
-           'Filter.exit() dedupes on a private flag and no longer sets the stop event: a filter with loop_exc=False that obeys an exit keeps running',
-           'C08 quick: did_not_obey / ended_unexpectedly in 58 runs'),
  'C08_2': ('C08', ['C08'], '', 'exceptions of the OOB callback swallowed by the sender: an obeyed exit announced by a downstream neighbour is logged and ignored',
            'C08 quick: ended_unexpectedly / did_not_obey in 58 runs'),
  'C10_1': ('C10', ['C10'], '', 'read-only GRAY source: g.rgb.bgr / g.rgb.ro_bgr return the 2-D GRAY frame (source cached on the converted frame as the opposite conversion)',
@@ -196,6 +193,11 @@ C05-r3-1 ('?' listener gates its endpoint of a load-balancing publisher) only ma
 `outputs_balance` publisher, which the documentation rules out ("no ephemeral channels within the balanced section",
 "don't plug into something that is load balancing outputs"); the generators do not produce that configuration, no check
 catches it, and it is not counted.
+C08-r3-1 (Filter.exit() dedupes on a private flag and no longer sets the stop event) was missed at first, made the C08
+generator give loop_exc=False to the neighbours of the failing filter, was then caught - and so was a genuine defect of
+the unchanged tree on the same path (an obeyed error exit swallowed by loop_exc=False). With that defect repaired
+(28ac49b) the seeded change no longer breaks the property (its own demonstration passes on the repaired tree with the
+change applied), so it is not kept either.
 """
 
 
